@@ -31,7 +31,23 @@ type c14Tok struct {
 	// Term: dash/hash: the end of the line comment ("" = \n, crnl, eot = end of text);
 	// cc: the byte right before */ ("" = none, sp nl star slash).
 	Term string `json:"term,omitempty"`
+	// Glue: no blank between the previous text and this unit.
+	Glue bool `json:"glue,omitempty"`
 }
+
+// units without a body:
+//   sc    /*!40001 */ executable comment without content ("nc": /*!40001 SQL_NO_CACHE */, only
+//         right behind select; "nover": /*! */)
+//   scph  /*!40001 ? */ an expression: the ? inside MySQL-specific code is executed, a real placeholder
+//   hint  /*+ MAX_EXECUTION_TIME(1000) */ optimizer hint, only right behind select
+//   tmul tdiv tsub tmm   *3  /3  -3  --3  continue the previous expression
+var c14Fixed = map[string]string{"mm": "1--2", "tmul": "*3", "tdiv": "/3", "tsub": "-3", "tmm": "--3", "scph": "/*!40001 ? */", "hint": "/*+ MAX_EXECUTION_TIME(1000) */"}
+var c14ScText = map[string]string{"": "/*!40001 */", "nc": "/*!40001 SQL_NO_CACHE */", "nover": "/*! */"}
+
+func c14IsTail(kind string) bool {
+	return kind == "tmul" || kind == "tdiv" || kind == "tsub" || kind == "tmm"
+}
+func c14FirstOnly(t c14Tok) bool { return t.Kind == "hint" || (t.Kind == "sc" && t.Open == "nc") }
 
 var c14DashOpen = map[string]string{"": " ", "tab": "\t", "nl": "\n", "cr": "\r", "ff": "\f", "vt": "\v", "c01": "\x01", "c1f": "\x1f", "c7f": "\x7f", "eot": ""}
 var c14DashOpens = []string{"", "tab", "nl", "cr", "ff", "vt", "c01", "c1f", "c7f", "eot"}
@@ -97,15 +113,19 @@ func c14PieceOK(kind, piece string) bool {
 
 // c14TokText renders one unit; ok=false if the body would end the unit early.
 func c14TokText(t c14Tok) (string, bool) {
+	if t.Kind == "sc" {
+		txt, ok := c14ScText[t.Open]
+		return txt, ok && len(t.Body) == 0 && t.Term == ""
+	}
 	if t.Kind != "dash" && t.Kind != "hash" && t.Kind != "cc" && (t.Open != "" || t.Term != "") {
 		return "", false
 	}
 	if t.Kind == "ph" {
 		return "?", len(t.Body) == 0
 	}
-	if t.Kind == "mm" {
-		// "--" not followed by white space is two minus signs, not a comment
-		return "1--2", len(t.Body) == 0
+	if txt, ok := c14Fixed[t.Kind]; ok {
+		// mm / tmm: "--" not followed by white space is two minus signs, not a comment
+		return txt, len(t.Body) == 0
 	}
 	var b strings.Builder
 	for _, p := range t.Body {
@@ -157,7 +177,13 @@ func c14TokText(t c14Tok) (string, bool) {
 	return "", false
 }
 
-func c14IsComment(kind string) bool { return kind == "dash" || kind == "hash" || kind == "cc" }
+func c14IsComment(kind string) bool {
+	return kind == "dash" || kind == "hash" || kind == "cc" || kind == "sc" || kind == "hint"
+}
+
+func c14Alnum(c byte) bool {
+	return c == '_' || (c >= '0' && c <= '9') || (c >= 'a' && c <= 'z') || (c >= 'A' && c <= 'Z')
+}
 
 // c14Build assembles the statement and the construction's ground truth.
 func c14Build(c c14Case) (sql string, want []int, ok bool) {
@@ -182,20 +208,31 @@ func c14Build(c c14Case) (sql string, want []int, ok bool) {
 				need = true
 			}
 		}
-		if c14IsComment(t.Kind) {
-			b.WriteString(" ")
-			b.WriteString(txt)
-			continue
+		if c14FirstOnly(t) && (i != 0 || c14Skels[c.Skel][0] != "select") {
+			return "", nil, false
 		}
-		if need {
+		if c14IsTail(t.Kind) {
+			if !need {
+				return "", nil, false // nothing to continue
+			}
+		} else if !c14IsComment(t.Kind) && need {
 			b.WriteString(",")
 		}
-		b.WriteString(" ")
-		if t.Kind == "ph" {
+		if !t.Glue {
+			b.WriteString(" ")
+		} else if last := b.String()[b.Len()-1]; c14Alnum(last) && c14Alnum(txt[0]) {
+			return "", nil, false // would merge two words
+		}
+		switch t.Kind {
+		case "ph":
 			want = append(want, b.Len())
+		case "scph":
+			want = append(want, b.Len()+strings.Index(txt, "?"))
 		}
 		b.WriteString(txt)
-		need = true
+		if !c14IsComment(t.Kind) {
+			need = true
+		}
 	}
 	if !need {
 		b.WriteString(" 1")
@@ -284,7 +321,7 @@ func c14Fails(c c14Case) bool {
 func c14Clone(c c14Case) c14Case {
 	d := c14Case{Skel: c.Skel, Toks: make([]c14Tok, len(c.Toks))}
 	for i, t := range c.Toks {
-		d.Toks[i] = c14Tok{Kind: t.Kind, Body: append([]string{}, t.Body...), Open: t.Open, Term: t.Term}
+		d.Toks[i] = c14Tok{Kind: t.Kind, Body: append([]string{}, t.Body...), Open: t.Open, Term: t.Term, Glue: t.Glue}
 	}
 	return d
 }
@@ -336,6 +373,16 @@ func c14Shrink(c c14Case) c14Case {
 				}
 				d := c14Clone(c)
 				d.Toks[i].Body[j] = "q"
+				if c14Fails(d) {
+					c, changed = d, true
+				}
+			}
+		}
+		// a blank in front of a glued unit
+		for i := 0; i < len(c.Toks) && !changed; i++ {
+			if c.Toks[i].Glue {
+				d := c14Clone(c)
+				d.Toks[i].Glue = false
 				if c14Fails(d) {
 					c, changed = d, true
 				}
@@ -399,10 +446,20 @@ func c14Shrink(c c14Case) c14Case {
 }
 
 func c14Desc(t c14Tok) string {
-	if t.Kind == "ph" || t.Kind == "mm" {
-		return t.Kind
+	g := ""
+	if t.Glue {
+		g = "+"
 	}
-	d := t.Kind
+	if _, fixed := c14Fixed[t.Kind]; fixed || t.Kind == "ph" {
+		return g + t.Kind
+	}
+	if t.Kind == "sc" {
+		if t.Open != "" {
+			return g + "sc<" + t.Open + ">"
+		}
+		return g + "sc"
+	}
+	d := g + t.Kind
 	if t.Open != "" {
 		d += "<" + t.Open + ">"
 	}
@@ -444,9 +501,9 @@ var c14Alphabet = []c14Tok{
 }
 
 func TestVerif_C14(t *testing.T) {
-	rec := kit.Start("C14", "exploration", "statements assembled from lexical units (placeholder, '…', \"…\", `…`, -- …, #…, /*…*/, 1--2) whose bodies are sequences of named pieces (?, \\', \\\", '', \"\", \\\\, other quote chars, comment markers, newline) in 3 statement skeletons; (a) every unit with every body up to a length bound, alone and next to a real placeholder, (a2) every opener/terminator of the comment units (what follows --, how a line comment ends, bytes after /* and before */), (b) every sequence of a 16-unit alphabet up to a length bound, (c) random sequences of random units; non-trivial = distinct (set of unit descriptions, number of real placeholders, outcome)")
+	rec := kit.Start("C14", "exploration", "statements assembled from lexical units (placeholder, '…', \"…\", `…`, -- …, #…, /*…*/, 1--2) whose bodies are sequences of named pieces (?, \\', \\\", '', \"\", \\\\, other quote chars, comment markers, newline) in 3 statement skeletons; (a) every unit with every body up to a length bound, alone and next to a real placeholder, (a2) every opener/terminator of the comment units (what follows --, how a line comment ends, bytes after /* and before */), (a3) every ordered pair of 22 unit prototypes (incl. /*! */, /*!40001 ? */, /*+ */ and the expression tails *3 /3 -3 --3) glued without a blank, (b) every sequence of a 16-unit alphabet up to a length bound, (c) random sequences of random units; non-trivial = distinct (set of unit descriptions, number of real placeholders, outcome)")
 	rec.Assume("default sql_mode: backslash is an escape inside '…' and \"…\", \"…\" is a string (no ANSI_QUOTES, no NO_BACKSLASH_ESCAPES)")
-	rec.Assume("/*! … */ and /*+ … */ (executable comments / hints) are not generated")
+	rec.Assume("/*! … */ is executed by the server: a ? inside it is a real placeholder; only the fixed forms /*!40001 */, /*!40001 SQL_NO_CACHE */, /*! */, /*!40001 ? */ and the hint /*+ MAX_EXECUTION_TIME(1000) */ are generated")
 	defer rec.Finish(t)
 	lxQuietLogs()
 	ps := parser.New()
@@ -629,6 +686,38 @@ func TestVerif_C14(t *testing.T) {
 	}
 	rec.Set("opener_terminator_variant_cases", nvar)
 
+	// (a3) glue: every ordered pair of unit prototypes with no blank between them (and with /
+	// without a blank in front of the first), alone, before a real placeholder and between two
+	protos := []c14Tok{{Kind: "ph"}, {Kind: "sq", Body: []string{"txt"}}, {Kind: "sq", Body: []string{"q"}}, {Kind: "dq", Body: []string{"q"}},
+		{Kind: "bq", Body: []string{"q"}}, {Kind: "dash", Body: []string{"q"}}, {Kind: "dash", Open: "tab", Body: []string{"q"}}, {Kind: "hash", Body: []string{"q"}},
+		{Kind: "cc", Body: []string{"q"}}, {Kind: "cc"}, {Kind: "cc", Open: "star"}, {Kind: "cc", Open: "slash", Body: []string{"q"}},
+		{Kind: "sc"}, {Kind: "sc", Open: "nc"}, {Kind: "sc", Open: "nover"}, {Kind: "scph"}, {Kind: "hint"}, {Kind: "mm"},
+		{Kind: "tmul"}, {Kind: "tdiv"}, {Kind: "tsub"}, {Kind: "tmm"}}
+	nglue := 0
+	for ai, a := range protos {
+		for bi, b := range protos {
+			for _, firstGlued := range []bool{false, true} {
+				a2, b2 := a, b
+				a2.Glue, b2.Glue = firstGlued, true
+				d := c14Desc(a2) + " " + c14Desc(b2)
+				for arr, toks := range [][]c14Tok{{a2, b2}, {a2, b2, {Kind: "ph"}}, {{Kind: "ph"}, a2, b2, {Kind: "ph"}}, {{Kind: "ph"}, a2, b2, {Kind: "ph", Glue: true}}} {
+					skel := []int{0, 3, 1, 2}[(ai+bi+arr)%4]
+					if c14FirstOnly(a) {
+						skel = []int{0, 3}[(bi+arr)%2]
+					}
+					c := c14Case{Skel: skel, Toks: toks}
+					if _, _, ok := c14Build(c); !ok {
+						continue
+					}
+					evals++
+					nglue++
+					runOne(c, true, fmt.Sprintf("g%d/%s", arr, d))
+				}
+			}
+		}
+	}
+	rec.Set("glue_pair_cases", nglue)
+
 	// (b) every sequence over the fixed alphabet up to maxLen
 	maxLen := kit.N(3, 6)
 	na := len(c14Alphabet)
@@ -672,13 +761,21 @@ func TestVerif_C14(t *testing.T) {
 		var ds []string
 		for j := 0; j < nt; j++ {
 			if nph < 6 && r.Chance(1, 3) {
-				c.Toks = append(c.Toks, c14Tok{Kind: "ph"})
+				c.Toks = append(c.Toks, c14Tok{Kind: "ph", Glue: r.Chance(1, 3)})
 				nph++
 				continue
 			}
-			if r.Chance(1, 12) {
-				c.Toks = append(c.Toks, c14Tok{Kind: "mm"})
-				ds = append(ds, "mm")
+			if r.Chance(1, 8) {
+				k := r.Pick([]string{"mm", "tmul", "tdiv", "tsub", "tmm", "sc", "scph"})
+				tk := c14Tok{Kind: k, Glue: r.Chance(1, 2)}
+				if k == "scph" {
+					if nph >= 6 {
+						continue
+					}
+					nph++
+				}
+				c.Toks = append(c.Toks, tk)
+				ds = append(ds, c14Desc(tk))
 				continue
 			}
 			kind := kinds[r.Intn(len(kinds))]
@@ -706,9 +803,10 @@ func TestVerif_C14(t *testing.T) {
 					tk = v
 				}
 			}
+			tk.Glue = r.Chance(1, 3)
 			c.Toks = append(c.Toks, tk)
 			u := append([]string{}, tk.Body...)
-			u = append(u, "<"+tk.Open+tk.Term+">")
+			u = append(u, "<"+tk.Open+tk.Term+">", fmt.Sprint(tk.Glue))
 			sort.Strings(u)
 			ds = append(ds, kind+strings.Join(u, ""))
 		}
